@@ -200,7 +200,7 @@ pub fn gen(seed: u64, n: usize, tier: &str) -> Vec<Case> {
         op_unsub("UNSUB", 1, Some(&[v(b"a")])), op_unsub("PUNSUB", 1, None), op_unsub("UNSUB", 1, None), vec![b("ISSUB"), i(1)] ] });
     cases.push(Case { id: "w-class".into(), outs: vec![], ops: vec![
         op_names("PSUB", 1, &[v(b"[n]ews")]), vec![b("PUB"), b("news"), b("m")], vec![b("PUB"), b("[n]ews"), b("m")] ] });
-    // class syntax where this matcher differs from Redis (finding glob-class-end): the first ']' ends the class
+    // class syntax corner cases (formerly finding glob-class-end, repaired by 5de9d19): escapes, unterminated class, reversed range
     cases.push(Case { id: "w-class-end".into(), outs: vec![], ops: vec![
         op_names("PSUB", 1, &[v(b"h[\\]]llo")]), op_names("PSUB", 2, &[v(b"[abc")]), op_names("PSUB", 3, &[v(b"[z-a]")]),
         vec![b("PUB"), b("h]llo"), b("m")], vec![b("PUB"), b("h\\]llo"), b("m")], vec![b("PUB"), b("a"), b("m")], vec![b("PUB"), b("m"), b("m")] ] });
